@@ -16,6 +16,13 @@ def isDigit (c : Char) : Bool := '0' ≤ c ∧ c ≤ '9'
 /-- `re.sub(r'[AEIOU]', '', name, flags=re.IGNORECASE).upper()` -/
 def stripUpper (s : List Char) : List Char := (s.filter (fun c => !isVowel c)).map upperChar
 
+/-- the stem of an invented name: vowels dropped, upper case, and — so that it still starts like a variable when the concept name
+is e.g. `a1` — an `X` in front of a leading digit (fix F43) -/
+def stem (s : List Char) : List Char :=
+  match stripUpper s with
+  | c :: r => if isDigit c then 'X' :: c :: r else c :: r
+  | [] => []
+
 /-- the maximal run of trailing digits (`\d+$`) -/
 def trailingDigits (s : List Char) : List Char := (s.reverse.takeWhile isDigit).reverse
 
@@ -36,7 +43,7 @@ def replaceAll (old new : List Char) : Nat → List Char → List Char
 def converterNamer : Nat → List (List Char) → List Char → Option (List Char × List (List Char))
   | 0, _, _ => none
   | fuel + 1, created, name =>
-    let result := stripUpper name
+    let result := stem name
     if created.contains result then
       let td := trailingDigits result
       let n := digitsToNat td
@@ -58,7 +65,7 @@ def rstripDigits (s : List Char) : List Char := (s.reverse.dropWhile isDigit).re
 def parserNamer : Nat → List (List Char) → List Char → Option (List Char × List (List Char))
   | 0, _, _ => none
   | fuel + 1, defined, name =>
-    let result := stripUpper name
+    let result := stem name
     if defined.contains result then
       let last := lastDigitRun name
       let next :=
